@@ -205,7 +205,13 @@ func RunCheck(cfg *CheckConfig) int {
 		if !has {
 			continue
 		}
-		name, ok, detail := eng.ConstInitCheck(cc)
+		var name, detail string
+		var ok bool
+		if cc.Kind == "callers" {
+			name, ok, detail = eng.CallersCheck(cc)
+		} else {
+			name, ok, detail = eng.ConstInitCheck(cc)
+		}
 		r := &OblResult{Name: name, Kind: "const", Fn: name, Where: cc.Clause.Where, Text: cc.Clause.Text, presolved: true, Solver: "syntactic"}
 		h := sha256.Sum256([]byte(cc.Clause.Text + "|" + detail))
 		r.Hash = fmt.Sprintf("%x", h[:8])
